@@ -541,4 +541,41 @@ def r6_shared_config(a, tier):
     return rep
 
 
-RULES = [r1_cache_key, r2_write_through, r3_inventory, r4_parse_is_readonly, r5_order_dependence, r6_shared_config]
+def r7_publish_last(a, tier):
+    rep = RuleReport(
+        'C10.R7',
+        'a lazily built object is published after it is complete: in every method that caches a locally built object in an attribute of self '
+        'and hands that attribute out on a later call (`if <self.A is set>: return self.A` ... `self.A = new`), no method of the new object '
+        'is called after the store - between the store and that call another thread parsing with the same model receives the unfinished object '
+        '(for a grammar: rules whose left-recursion marks were reset and not yet recomputed), and keeps what it derived from it',
+        floor=1,
+    )
+    n = 0
+    for f in a.p.functions.values():
+        if not f.module.name.startswith('tatsu.') or f.cls is None or f.module.name.startswith(('tatsu.boot.bootstrap', 'tatsu.tool')):
+            continue
+        stores = [(i, st) for i, st in enumerate(f.node.body) if isinstance(st, ast.Assign) and len(st.targets) == 1
+                  and isinstance(st.targets[0], ast.Attribute) and norm(st.targets[0].value) == 'self' and isinstance(st.value, ast.Name)]
+        if not stores:
+            continue
+        for i, st in stores:
+            attr = st.targets[0].attr
+            local = st.value.id
+            built_here = any(isinstance(x, ast.Assign) and any(isinstance(t, ast.Name) and t.id == local for t in x.targets) and isinstance(x.value, ast.Call)
+                             for x in f.node.body[:i])
+            handed_out = any(isinstance(x, ast.Return) and x.value is not None and norm(x.value) == f'self.{attr}' for x in ast.walk(f.node))
+            if not (built_here and handed_out):
+                continue
+            n += 1
+            later = [c for x in f.node.body[i + 1:] for c in ast.walk(x) if isinstance(c, ast.Call) and isinstance(c.func, ast.Attribute)
+                     and isinstance(c.func.value, ast.Name) and c.func.value.id == local]
+            rep.add({'fn': f.qualname, 'cache_attribute': attr, 'object': local, 'calls_on_the_object_after_publication': [norm(c)[:60] for c in later]})
+            if later:
+                rep.fail(f.qualname, f'publish-before-complete:{attr}', f'{f.qualname} stores `{local}` in self.{attr} (which later calls return) and then still calls '
+                         f'{[norm(c)[:40] for c in later]} on it: a concurrent caller gets the object before it is complete', f'{f.module.relpath}:{st.lineno}')
+    if n == 0:
+        rep.fail('tatsu', 'publish:none-found', 'no lazily cached object found (Grammar.optimized caches its result in self._optimized)', None)
+    return rep
+
+
+RULES = [r1_cache_key, r2_write_through, r3_inventory, r4_parse_is_readonly, r5_order_dependence, r6_shared_config, r7_publish_last]
